@@ -48,15 +48,7 @@ func (c *deleteCleaner) Clean(segments []*segment) ([]*segment, error) {
 	c.Logger.Debugf("Cleaning log %s based on retention policy %+v", c.Name, c.Retention)
 	defer c.Logger.Debugf("Finished cleaning log %s", c.Name)
 
-	// Limit by age first.
-	if c.Retention.Age > 0 {
-		segments, err = c.applyAgeLimit(segments)
-		if err != nil {
-			return nil, errors.Wrap(err, "failed to apply age retention limit")
-		}
-	}
-
-	// Next limit by number of messages.
+	// Limit by number of messages first.
 	if c.Retention.Messages > 0 {
 		segments, err = c.applyMessagesLimit(segments)
 		if err != nil {
@@ -64,11 +56,24 @@ func (c *deleteCleaner) Clean(segments []*segment) ([]*segment, error) {
 		}
 	}
 
-	// Lastly limit by number of bytes.
+	// Next limit by number of bytes.
 	if c.Retention.Bytes > 0 {
 		segments, err = c.applyBytesLimit(segments)
 		if err != nil {
 			return nil, errors.Wrap(err, "failed to apply bytes retention limit")
+		}
+	}
+
+	// Lastly limit by age. The age limit removes expired segments from the
+	// oldest end up to the first segment that is still live. It goes last
+	// because the size limits can remove that live segment and so expose
+	// expired ones behind it (segment write times need not increase from one
+	// segment to the next, e.g. after a leader change between servers whose
+	// clocks differ), which would otherwise survive until the next clean.
+	if c.Retention.Age > 0 {
+		segments, err = c.applyAgeLimit(segments)
+		if err != nil {
+			return nil, errors.Wrap(err, "failed to apply age retention limit")
 		}
 	}
 
